@@ -92,12 +92,19 @@ impl FeoxStore {
             }
 
             if let Some(ref disk_io) = self.disk_io {
+                #[cfg(feature = "verif")]
+                {
+                    crate::verif::point("flush_meta", 0, 0);
+                    crate::verif::wait_until("lock_meta", &|| !self._metadata.is_locked());
+                }
                 // Update metadata with current stats
                 let mut metadata = self._metadata.write();
                 metadata.total_records = self.stats.record_count.load(Ordering::Relaxed) as u64;
                 metadata.total_size = self.stats.disk_usage.load(Ordering::Relaxed);
                 metadata.fragmentation = self.free_space.read().get_fragmentation();
                 metadata.update();
+                #[cfg(feature = "verif")]
+                crate::verif::wait_until("lock_disk_w", &|| !disk_io.is_locked());
 
                 // Write metadata
                 disk_io.write().write_store_metadata(&mut metadata)?;
@@ -107,6 +114,8 @@ impl FeoxStore {
     }
 
     pub(super) fn load_value_from_disk(&self, record: &Arc<Record>) -> Result<Bytes> {
+        #[cfg(feature = "verif")]
+        crate::verif::point("rd_enter", 0, 0);
         let mut source = Arc::clone(record);
         loop {
             if let Some(value) = source.get_value() {
@@ -123,6 +132,21 @@ impl FeoxStore {
             return Err(FeoxError::StaleExtent);
         }
         crate::test_hooks::pause_at(crate::test_hooks::AFTER_SECTOR_LOAD);
+        #[cfg(feature = "verif")]
+        let verif_extent = (
+            sector,
+            get_format_ref(self.format_version)
+                .total_size(source.key.len(), source.value_len)
+                .div_ceil(FEOX_BLOCK_SIZE) as u64,
+        );
+        #[cfg(feature = "verif")]
+        {
+            crate::verif::note("rd_pin", verif_extent.0, verif_extent.1);
+            crate::verif::point("rd_pinned", verif_extent.0, verif_extent.1);
+            if let Some(disk_io) = self.disk_io.as_ref() {
+                crate::verif::wait_until("lock_disk_r", &|| !disk_io.is_locked_exclusive());
+            }
+        }
 
         // Get the appropriate format handler
         let format = get_format_ref(self.format_version);
@@ -143,6 +167,13 @@ impl FeoxStore {
             })?
             .read();
 
+        #[cfg(feature = "verif")]
+        let data = {
+            let data = disk_io.read_sectors_sync(sector, sectors_needed as u64);
+            crate::verif::note("rd_release", verif_extent.0, verif_extent.1);
+            data?
+        };
+        #[cfg(not(feature = "verif"))]
         let data = disk_io.read_sectors_sync(sector, sectors_needed as u64)?;
         drop(extent);
 
@@ -321,10 +352,14 @@ impl Drop for FeoxStore {
             sweeper.stop();
         }
 
+        #[cfg(feature = "verif")]
+        crate::verif::point("drop_begin", 0, 0);
         // Signal shutdown to write buffer workers
         if let Some(ref wb) = self.write_buffer {
             wb.initiate_shutdown();
         }
+        #[cfg(feature = "verif")]
+        crate::verif::point("drop_signalled", 0, 0);
 
         if let Some(write_buffer) = self.write_buffer.take() {
             write_buffer.finish_shutdown();
@@ -339,6 +374,8 @@ impl Drop for FeoxStore {
                 metadata.total_size = self.stats.disk_usage.load(Ordering::Relaxed);
                 metadata.fragmentation = self.free_space.read().get_fragmentation();
                 metadata.update();
+                #[cfg(feature = "verif")]
+                crate::verif::wait_until("lock_disk_w", &|| !disk_io.is_locked());
 
                 // Write metadata
                 let _ = disk_io.write().write_store_metadata(&mut metadata);
